@@ -115,7 +115,7 @@ def build_go():
         return
     # the harness module points at REPO through a replace directive and inherits REPO's own replaces
     gomod = os.path.join(hdir, "go.mod")
-    txt = open(gomod).read()
+    txt = _read(gomod) or ""      # go.mod / go.sum are generated (gitignored)
     reps = re.findall(r"^replace\s+(\S+\s+=>\s+\S+\s+\S+)\s*$", open(os.path.join(REPO, "go.mod")).read(), re.M)
     new = ("module verif/harness\n\ngo 1.25.5\n\nrequire github.com/ysugimoto/falco/v2 v2.0.0\n\n"
            "replace github.com/ysugimoto/falco/v2 => %s\n" % REPO
@@ -131,7 +131,7 @@ def build_go():
         rc, out = sh(["go", "build"] + tags + ["-o", os.path.join(BUILD, target), pkg], cwd=hdir, env=GOENV, timeout=900)
         if rc != 0:
             raise BuildError("go build %s failed:\n%s" % (target, out))
-    if REPO != "/repo":   # keep /verif clean when VERIF_REPO points at a scratch tree
+    if REPO != "/repo" and txt is not None:   # keep /verif clean when VERIF_REPO points at a scratch tree
         open(gomod, "w").write(txt)
     open(_stamp("go"), "w").write(key)
 
@@ -143,6 +143,12 @@ def regen():
     rc, out = sh([os.path.join(BUILD, "trans"), REPO, gen], timeout=300)
     if rc != 0:
         raise BuildError("translator failed:\n" + out)
+    # O ties: lib/obs_<name>.py with observe(gen_dir) runs the real code (build/implrun) over a
+    # finite domain and writes the observed table(s) into coq/Gen (only when changed)
+    import importlib
+    for fn in sorted(os.listdir(os.path.join(VERIF, "lib"))):
+        if fn.startswith("obs_") and fn.endswith(".py"):
+            importlib.import_module(fn[:-3]).observe(gen)
 
 
 def coq_project():
@@ -259,7 +265,7 @@ def run_batch(cmd, requests, hang_s=5.0, env=None, mem_kb=4_000_000, label="", m
             for i in range(start, n):
                 replies[i] = "skipped (too many hangs/crashes in this batch)"
             break
-        pre = "ulimit -v %d; exec " % mem_kb
+        pre = "ulimit -s unlimited 2>/dev/null || ulimit -s 1000000 2>/dev/null; ulimit -v %d; exec " % mem_kb
         p = subprocess.Popen(["bash", "-c", pre + " ".join(map(_q, cmd))], stdin=subprocess.PIPE,
                              stdout=subprocess.PIPE, stderr=subprocess.PIPE, env=env)
         os.set_blocking(p.stdout.fileno(), False)
@@ -461,6 +467,18 @@ class Ctx:
             self.obligation("theorem %s [assumptions: %s]" % (t, a.replace("\n", " ")), res["ok"], "")
             if a not in ("closed",) and a != "not printed":
                 self.assumptions.append("theorem %s depends on: %s" % (t, a.replace("\n", " ")))
+        if res["ok"] and self.thorough() and os.environ.get("VERIF_NO_COQCHK") != "1":
+            # independent re-check of the compiled property file and everything it depends on
+            rc, out = sh(["timeout", "2400", "coqchk", "-silent", "-o", "-R", ".", "Falco", "Falco.Props." + pid],
+                         cwd=COQ, timeout=2500)
+            m = re.search(r"\* Axioms:(.*?)\n\s*\n", out, re.S)
+            ax = " ".join((m.group(1) if m else "?").split())
+            self.obligation("coqchk -silent -o Falco.Props.%s [axioms: %s]" % (pid, ax), rc == 0, out[-300:] if rc else "")
+            if ax not in ("<none>",):
+                self.assumptions.append("coqchk lists axioms for Props.%s: %s" % (pid, ax))
+            if rc != 0:
+                self.broken = "coqchk failed for Props." + pid
+                return False
         return res["ok"]
 
     def finish(self, level="proof", rule="", extra_cov=None):
